@@ -273,6 +273,15 @@ type c02Server struct {
 }
 
 func c02(r *vlib.Run) int {
+	min := c02Body(r)
+	if r.Tier == "thorough" || os.Getenv("VERIF_FORCE_RACE") != "" {
+		// secondary monitor: the same workload (reduced) against -race builds
+		r.RacePass([]string{"handlers.(*baseHandler)", "handlers.(*ServerHandler)", "internal.(*Done)", "connectors.(", "fs.(*readFile)", "fs.readFile"}, func() { c02Body(r) })
+	}
+	return min
+}
+
+func c02Body(r *vlib.Run) int {
 	r.Rule("cat and grep sessions (serverless and over SSH) whose stdout is a harness-owned pipe (4 KiB or 64 KiB) read by a pacing program " +
 		"{fast; uniformly slow; one stall of 0.15-6 s at offset 0, mid, or 0/1/99/100/101/200 lines (+- the pipe size) before the end}; " +
 		"files of {0,1,99,100,101,199,200,201,1000,30000} lines x {1,2,3,7,40} files per session as comma list or glob x " +
